@@ -521,6 +521,7 @@ def check_sample_documents(ctx):
         'order-differs-from-stoichiometry': ([('A', 2), ('B', 1)], [('C', 1)], 'k1*A*B'),
         'saturating-law': ([('A', 1)], [('A', 1), ('B', 3)], 'k1*A/(K+A)'),
         'plain-mass-action': ([('A', 1), ('B', 1)], [('C', 2)], 'k1*A*B'),
+        'repeated-species-reference': ([('A', 1), ('A', 1)], [('C', 1), ('B', 1), ('C', 2)], 'k1*A*A'),
     }
     for label, (reac, prod, law) in samples.items():
         species = {'A': 1.0, 'B': 2.0, 'C': 0.0}
@@ -627,9 +628,14 @@ def check(ctx):
     check_local_params(ctx, f2, lp2)
     check_species(ctx)
     check_assembly(ctx)
+    # "kinetic laws over the supported operator set": the importer hands bioscrape the text libsbml prints for the document's MathML
+    from . import c14
+    c14.check_printer_language(ctx, 'R13.8-printer-language', 'import_sbml_reactions', 'kinetic-law')
+    c14.check_printer_language(ctx, 'R13.8-printer-language', 'import_sbml_rules', 'rule')
+    ctx.floor('R13.8-printer-language', 6)
     try:
         check_sample_documents(ctx)
-        ctx.floor('R13.7-sample-document', 3)
+        ctx.floor('R13.7-sample-document', 4)
     except AnalysisError as e:
         # the evaluation could not be carried through.  If the other rules already report violations those are what the run reports;
         # otherwise the run fails closed.
